@@ -280,6 +280,6 @@ def sessions(draw):
 
 
 PARTS = [
-    Part('streams', 'hyp', run_stream, strategy=streams(), quick=1500, thorough=240000, quick_shards=8),
-    Part('sessions', 'hyp', run_sess, strategy=sessions(), quick=400, thorough=24000, quick_shards=8),
+    Part('streams', 'hyp', run_stream, strategy=streams(), quick=2000, thorough=240000, quick_shards=8),
+    Part('sessions', 'hyp', run_sess, strategy=sessions(), quick=500, thorough=24000, quick_shards=8),
 ]
